@@ -5,19 +5,23 @@ from ..intervals import float_facts_to_env
 from .common import SELF, self_field
 
 EXPLANATION = (
-    "The numeric bounds of C04 (rank error <= c*W(delta, n), at most delta+3 centroids) are NOT decided — they follow from analytic "
-    "properties of the scale functions. What is decided is the structure both bounds presuppose. R04-merge-criterion: merge() sorts "
-    "the buffer by centroid mean (sort key = mean(c), comparison partial_cmp on the keys), accumulates S = sum of counts, and fuses "
-    "greedily under exactly `q_0 + (w_cur + w_next)/S <= q_limit` with q_limit = f_inv(f(q_0, n) + 1, n) recomputed from the NEW "
-    "q_0 = q_0 + w_cur/S whenever a cluster is closed, n = self.n_samples and one and the same scale function for f and f_inv (a "
-    "cluster spans at most one unit of the scale function, which is what bounds both its width and the number of clusters). "
-    "R04-scale-clamp: every scale function clamps q to [0,1] before use and its constructor asserts delta > 1 and finite. "
-    "R04-inputs: n_samples counts +1 per insert and is reset by clear; the backlog is merged when it exceeds max_backlog_size and "
-    "before every read; merge conserves mass (C11/C15/C16/C19 rules applied to the digest)."
+    "The numeric bounds of C04 (rank error <= c*W(delta, n), at most delta+3 centroids) are NOT decided as such. Decided is the "
+    "structure both bounds presuppose. R04-merge-criterion: merge() sorts the buffer by centroid mean (sort key = mean(c), "
+    "comparison partial_cmp on the keys), accumulates S = sum of counts, and fuses greedily under exactly "
+    "`q_0 + (w_cur + w_next)/S <= q_limit` with q_limit = f_inv(f(q_0, n) + 1, n) recomputed from the NEW q_0 = q_0 + w_cur/S "
+    "whenever a cluster is closed, n = self.n_samples and one and the same scale function for f and f_inv (a cluster spans at most "
+    "one unit of the scale function). R04-scale-width: the symbolic derivative of each scale function's f (term taken from the MIR, "
+    "helpers inlined), evaluated at q = 1/2 as an exact rational function of delta, ln n, ln delta, pi, is the reciprocal of the "
+    "maximal cluster width W that the property states for K0..K3 (2/delta, pi/delta, (ln(n/delta)+6)/delta, (2 ln(n/delta)+10.5)/delta). "
+    "R04-scale-inverse: f_inv(f(q, n), n) rewrites to q on every branch (exp/ln, sin/asin). R04-scale-clamp: every scale function "
+    "clamps q to [0,1] before use and its constructor asserts delta > 1 and finite. R04-inputs: n_samples counts +1 per insert and is "
+    "reset by clear; the backlog is merged when it exceeds max_backlog_size and before every read (C15's read rules); merge conserves "
+    "mass (C16/C19 rules applied to the digest)."
 )
-NOT_DECIDED = ("the bounds themselves: rank error within a multiple of the maximal cluster width W for each scale function, and the delta+3 bound on the "
-               "number of centroids — consequences of the analytic form of K0..K3 (constants 24/21/2*pi have no code-shape oracle)")
-ASSUMPTIONS = ["f and f_inv of each ScaleFunction impl are mutually inverse on [0,1] (not checked)", "real-number semantics for f64"]
+NOT_DECIDED = ("the bounds themselves: that a greedy merge under the one-unit criterion yields rank error within a small multiple of W and at most "
+               "delta+3 centroids — the paper's argument from the criterion and the scale function, which the rules above only supply the premises of; "
+               "floating-point rounding")
+ASSUMPTIONS = ["real-number semantics for f64", "clamps min(1).max(0) are the identity on (0,1); the width is maximal at the median for K1..K3 (concavity of 1/k')"]
 
 TI = "tdigest::TDigestInner"
 
@@ -32,6 +36,9 @@ def run(ctx):
     conservation(ctx, mg)
     from .C19 import run_clear_rules
     run_clear_rules(ctx, only_adt=TI, floor=1)
+    # the bounds are stated for what quantile()/cdf() answer: both must see every inserted value
+    from .C15 import read_rules
+    read_rules(ctx)
 
 
 def structure_rules(ctx):
@@ -173,6 +180,7 @@ def structure_rules(ctx):
             okd = iv is not None and iv.gt(1.0) and fin
         ctx.check(okd, "R04-scale-clamp", new.key, new, "constructor asserts delta > 1 and finite", "%s::new does not establish delta > 1 && finite" % k)
     ctx.floor("R04-scale-clamp", n_sf, 4, "scale functions")
+    scale_algebra_rules(ctx)
 
     # backlog policy: merged when it exceeds max_backlog_size
     iw = ctx.anchor(TI + "::insert_weighted")
@@ -197,3 +205,106 @@ def structure_rules(ctx):
         ctx.check(not probs and seen[True] and seen[False], "R04-backlog-policy", iw.key, iw, "merge() exactly when backlog.len() > max_backlog_size", "; ".join(sorted(set(probs))[:2]))
 
     return mg
+
+
+# the maximal cluster width W of each scale function as the PROPERTY states it (C04's statement), over the atoms
+# d = delta, L = ln(n) - ln(delta), pi
+def _w_spec(k, A, R):
+    from fractions import Fraction
+    d = R.r_atom("delta")
+    L = R.r_add(A.fn_atom("ln", R.r_atom("n")), A.fn_atom("ln", R.r_atom("delta")), -1)
+    if k == "K0":
+        return R.r_div(R.r_const(2), d)
+    if k == "K1":
+        return R.r_div(R.r_atom("pi"), d)
+    if k == "K2":
+        return R.r_div(R.r_add(L, R.r_const(6)), d)
+    return R.r_div(R.r_add(R.r_mul(R.r_const(2), L), R.r_const(Fraction(21, 2))), d)
+
+
+def scale_algebra_rules(ctx):
+    """R04-scale-width: a cluster spans one unit of the scale function k(q) = f(q, n), so its width at q is 1/k'(q), maximal at the
+    median; the symbolic derivative of the term of `f` (taken from the MIR, helpers inlined, clamps = identity inside (0,1)),
+    evaluated at q = 1/2 as an exact rational function of delta, ln n, ln delta and pi, must be the reciprocal of the W that the
+    property states for that scale function. R04-scale-inverse: f_inv(f(q, n), n) rewrites to q with exp(ln u) = u, sin(asin u) = u
+    (the fuse limit q_limit = f_inv(f(q_0) + 1) is only meaningful if the two are inverse). Nothing is evaluated numerically."""
+    from fractions import Fraction
+    from .. import symalg as R
+    from ..terms import subst_term
+    prog = ctx.prog
+    selfp = ("param", 1, "self")
+    n_w = n_i = 0
+    for k in ("K0", "K1", "K2", "K3"):
+        f = ctx.anchor("<tdigest::%s as tdigest::ScaleFunction>::f" % k)
+        fi = ctx.anchor("<tdigest::%s as tdigest::ScaleFunction>::f_inv" % k)
+        if f is None or fi is None:
+            continue
+        q = ("param", 2, f.local_name(2))
+        n_t = ("param", 3, f.local_name(3))
+        atoms = {("field", selfp, "delta"): "delta", n_t: "n", q: "q"}
+        ft = TermBuilder(f, prog).return_term()
+        # ---- width -------------------------------------------------------------------------------------
+        try:
+            A = R.Algebra(atoms, values={"q": Fraction(1, 2)})
+            slope = A.of(R.diff(ft, q))
+            w_impl = R.r_div(R.r_const(1), slope)
+            w_spec = _w_spec(k, A, R)
+            okw = R.r_eq(w_impl, w_spec)
+            msg = "1/k'(1/2) = %s, the property states W = %s" % (R.r_fmt(w_impl)[:220], R.r_fmt(w_spec)[:160])
+        except R.NotAlgebraic as e:
+            ctx.shape("R04-scale-width", f.key, f, "the scale function is not in the algebra the rule understands (%s)" % e)
+            continue
+        n_w += 1
+        ctx.check(okw, "R04-scale-width", f.key, f, "%s: 1/k'(1/2) equals the stated maximal cluster width" % k,
+                  "%s: the slope of the scale function at the median does not give the maximal cluster width of the property: %s" % (k, msg))
+        # ---- inverse ------------------------------------------------------------------------------------
+        kp = ("param", 2, fi.local_name(2))
+        n_i_t = ("param", 3, fi.local_name(3))
+        fit = TermBuilder(fi, prog).return_term()
+        inv_alts = [a for a in (fit[1] if fit[0] == "phi" else (fit,)) if kp in subterms(a)]
+        f_alts = _split_phi(ft)
+        probs = []
+        used = set()
+        for fa in f_alts:
+            hit = False
+            for j, ia in enumerate(inv_alts):
+                try:
+                    A2 = R.Algebra(atoms)
+                    comp = subst_term(_strip_bounds(ia, kp), {kp: fa, n_i_t: n_t})
+                    if R.r_eq(A2.of(comp), R.r_atom("q")):
+                        hit = True
+                        used.add(j)
+                except R.NotAlgebraic:
+                    continue
+            if not hit:
+                probs.append("f_inv(f(q)) does not rewrite to q for the branch f = %s" % fmt(fa)[:140])
+        if len(used) != len(inv_alts):
+            probs.append("%d finite branch(es) of f_inv invert no branch of f" % (len(inv_alts) - len(used)))
+        n_i += 1
+        ctx.check(not probs and inv_alts, "R04-scale-inverse", fi.key, fi, "%s: f_inv(f(q, n), n) = q on every branch" % k, "%s: %s" % (k, "; ".join(probs[:2]) or "f_inv has no branch that depends on k"))
+    ctx.floor("R04-scale-width", n_w, 4, "scale functions differentiated")
+    ctx.floor("R04-scale-inverse", n_i, 4, "scale functions inverted")
+
+
+def _split_phi(t):
+    """alternatives of a term with (possibly nested) phi nodes: one term per combination (at most one phi is expected)"""
+    phis = [s_ for s_ in subterms(t) if s_[0] == "phi"]
+    if not phis:
+        return [t]
+    from ..terms import subst_term
+    p0 = phis[0]
+    out = []
+    for a in p0[1]:
+        out += _split_phi(subst_term(t, {p0: a}))
+    return out
+
+
+def _strip_bounds(t, var):
+    """clamps of the variable against bounds that do not depend on it (`k.min(delta/2).max(0)`) are the identity on the range of f"""
+    if not isinstance(t, tuple):
+        return t
+    if t[0] == "op" and t[1] in ("min", "max"):
+        dep = [x for x in t[2] if var in subterms(x)]
+        if len(dep) == 1:
+            return _strip_bounds(dep[0], var)
+    return tuple(_strip_bounds(x, var) if isinstance(x, tuple) else x for x in t)
